@@ -1,5 +1,8 @@
 import RxnModel.Proofs.RescaleAssign
 import RxnModel.Proofs.RescaleRestore
+import RxnModel.Proofs.RescaleInv
+import RxnModel.Proofs.RescaleScan
+import RxnModel.Proofs.RescaleBridge
 /-!
 # C06 — rescaling redistributes checkpointed state completely and exclusively
 
@@ -35,8 +38,8 @@ theorem assign_complete (kgc m n : Nat) (hm : 0 < m) (frm : List KGRange) (hperm
 /-- the handles `Assembly.Deploy` passes on (`sliceu.Pick` of the assignment) are the recorded checkpoints at the
 assigned positions, in recorded order -/
 theorem pick_assigned {α : Type} (xs : List α) (idx : List Nat) (x : α) :
-    x ∈ pick xs idx ↔ ∃ j, j ∈ idx ∧ xs[j]? = some x := by
-  simp [pick, List.mem_filterMap]
+    x ∈ Rescale.pick xs idx ↔ ∃ j, j ∈ idx ∧ xs[j]? = some x := by
+  simp [Rescale.pick, List.mem_filterMap]
 
 /-! ## Restore of several checkpoints into one owner (`LoadCheckpointList`, `DB.Start` with `DataOwnership`) -/
 
@@ -95,8 +98,10 @@ theorem seq_above_loaded (own : Bytes → Bool) (c : Ckpt) (cs : List Ckpt) :
     rw [write_single s m hm hinv.reading]
     exact ⟨rfl, rfl⟩
 
-/-- a write after the restore is what the next read of the key returns (C03 behaviour on restored keys) -/
-theorem write_after_restore_wins (own : Bytes → Bool) (c : Ckpt) (cs : List Ckpt) (k : Bytes) (d : Bool) (v : Bytes) :
+/-- Get form of "a write after the restore wins". NOTE: this alone does not need the sequence numbers (`getR` visits
+the memtable first; it also holds of the unrepaired `openDBOld`); the statement that does is
+`write_after_restore_wins_scan` below, whose D6 witness is `d6_scan_counterexample`. -/
+theorem write_after_restore_wins_get (own : Bytes → Bool) (c : Ckpt) (cs : List Ckpt) (k : Bytes) (d : Bool) (v : Bytes) :
     answer (getR (write (openDB own (c :: cs)) k d v) k) = if d then none else some v := by
   have hinv := openDB_inv own c cs
   obtain ⟨m, hm, _⟩ := hinv.mems
@@ -123,6 +128,254 @@ theorem rescale_restore_partial (own : Bytes → Bool) (n : Nat) (pre post : Lis
     (k : Bytes) (hlen : 2 ≤ k.length) (hk : rj.includes (kgOf k) = true) (hown : own k = true) :
     answer (getR (openDB own ((pre ++ (rj, cj) :: post).map (·.2))) k) = ckptAnswer cj k :=
   restore_get own n pre post rj cj hok hdis k hlen hk hown
+
+/-! ## The restored instance is a C07 instance: scans, and every later history -/
+
+/-- **restored_instance_inv** (partial, same exclusion as `rescale_restore_partial`): the instance produced by
+`Open` from ANY non-empty list of old checkpoints in ANY handle order satisfies the DKV invariant `Lsm.Inv` of C07
+(runs sorted, newer-above in read order, deeper levels range-unique, sequence bound) for the specification map
+`m` = its containers in read order; and for every owned key that map holds exactly what the key's old owner answered
+at its checkpoint. `SrcOk` asks of each old `(range, document)`: C07's `sorted`/`newer` and C18's level validity for
+that single instance, `n+1` levels, and — the excluded condition of D37/D47 — that its tables and WAL only carry key
+groups of its own range. -/
+theorem restored_instance_inv_partial (own : Bytes → Bool) (n : Nat) (pre post : List (KGRange × Ckpt))
+    (rj : KGRange) (cj : Ckpt)
+    (hok : ∀ p ∈ pre ++ (rj, cj) :: post, SrcOk (n + 1) p)
+    (hdis : (pre ++ (rj, cj) :: post).Pairwise (fun a b => a.1.overlaps b.1 = false)) :
+    let s := openDB own ((pre ++ (rj, cj) :: post).map (·.2))
+    let m : Spec := (containers s).flatten
+    Inv s m ∧ ReadInv s m ∧
+    ∀ k, 2 ≤ k.length → rj.includes (kgOf k) = true → own k = true → answer (Spec.get m k) = ckptAnswer cj k := by
+  intro s m
+  have hne : pre ++ (rj, cj) :: post ≠ [] := by simp
+  have hinv : Inv s m := openDB_lsm_inv own n _ hne hok hdis
+  refine ⟨hinv, ?_, ?_⟩
+  · intro k r hrd
+    have hr : s.reading = none := by
+      obtain ⟨c0, rest, hcs⟩ : ∃ c0 rest, (pre ++ (rj, cj) :: post).map (·.2) = c0 :: rest := by
+        cases pre with
+        | nil => exact ⟨cj, post.map (·.2), by simp⟩
+        | cons p ps' => exact ⟨p.2, (ps' ++ (rj, cj) :: post).map (·.2), by simp⟩
+      have := (openDB_inv own c0 rest).reading
+      rw [← hcs] at this; exact this
+    rw [hr] at hrd; cases hrd
+  · intro k hlen hk hown
+    have h1 : Spec.get m k = Lsm.get s k := by rw [get_eq_firstHit hinv k]; exact (hinv.hit k).symm
+    rw [h1, ← getR_eq_get own n _ hok hdis hne k]
+    exact restore_get own (n + 1) pre post rj cj (fun p hp => (hok p hp).toOldOk) hdis k hlen hk hown
+
+/-- **rescale_restore_scan** (partial, same exclusion): `ScanPrefix p` on the restored instance — for ANY prefix —
+is strictly ascending, and for every key the new instance owns it contains the key with value `v` exactly when the
+key's old owner held the live value `v` at its checkpoint and the key has the prefix: nothing checkpointed is missing
+(completeness), nothing else appears for an owned key. This is the read path of `KeyedStateStore.GetState` and of
+the timer queue's `loadFromDB`. Stated for `Lsm.scan` (merge of all tables); `scanR_eq_scan` below transfers it to
+the table selection `AllTablesForPrefix` performs. -/
+theorem rescale_restore_scan_partial (own : Bytes → Bool) (n : Nat) (pre post : List (KGRange × Ckpt))
+    (rj : KGRange) (cj : Ckpt)
+    (hok : ∀ p ∈ pre ++ (rj, cj) :: post, SrcOk (n + 1) p)
+    (hdis : (pre ++ (rj, cj) :: post).Pairwise (fun a b => a.1.overlaps b.1 = false)) (p : Bytes) :
+    let s := openDB own ((pre ++ (rj, cj) :: post).map (·.2))
+    (scan s p).Sorted ∧
+    ∀ k v, 2 ≤ k.length → rj.includes (kgOf k) = true → own k = true →
+      ((∃ e ∈ scan s p, e.key = k ∧ e.val = v) ↔ (ckptAnswer cj k = some v ∧ Bytes.hasPrefix k p = true)) := by
+  intro s
+  obtain ⟨hinv, _, hspec⟩ := restored_instance_inv_partial own n pre post rj cj hok hdis
+  obtain ⟨hsorted, hmem⟩ := scan_spec hinv p
+  refine ⟨hsorted, ?_⟩
+  intro k v hlen hk hown
+  have hs := hspec k hlen hk hown
+  constructor
+  · rintro ⟨e, he, rfl, rfl⟩
+    obtain ⟨hg, hd, hp⟩ := (hmem e).mp he
+    rw [hg] at hs
+    simp only [answer, hd] at hs
+    exact ⟨by simpa using hs.symm, hp⟩
+  · rintro ⟨hc, hp⟩
+    rw [hc] at hs
+    cases hg : Spec.get ((containers s).flatten) k with
+    | none => rw [hg] at hs; simp [answer] at hs
+    | some e =>
+      rw [hg] at hs
+      have hkey : e.key = k := (Run.lookup_some_mem hg).2
+      by_cases hd : e.del = true
+      · simp [answer, hd] at hs
+      · have hd' : e.del = false := by simpa using hd
+        simp only [answer, hd', Bool.false_eq_true, if_false, Option.some.injEq] at hs
+        exact ⟨e, (hmem e).mpr ⟨by rw [hkey]; exact hg, hd', by rw [hkey]; exact hp⟩, hkey, hs⟩
+
+/-- **later updates take effect as in C03, at scan level and for every later history**: starting from the restored
+instance, after ANY sequence of DKV actions (writes, deletes, memtable rotations, flush commits at any point, reads
+in two phases; compactions under C18's soundness or none) the instance still satisfies `Lsm.Inv` for the restored map
+advanced by the writes — so `ScanPrefix` is exactly the live latest entries (`Lsm.scan_spec`) and `Get` the latest
+write (`Lsm.get_eq_firstHit`). -/
+theorem restored_history_refines_partial (own : Bytes → Bool) (n : Nat) (pre post : List (KGRange × Ckpt))
+    (rj : KGRange) (cj : Ckpt)
+    (hok : ∀ p ∈ pre ++ (rj, cj) :: post, SrcOk (n + 1) p)
+    (hdis : (pre ++ (rj, cj) :: post).Pairwise (fun a b => a.1.overlaps b.1 = false))
+    (as : List Act) (hc : noCompact as = true ∨ CompactionSound) (s' : State) (m' : Spec)
+    (hrun : runBoth (openDB own ((pre ++ (rj, cj) :: post).map (·.2)))
+      (containers (openDB own ((pre ++ (rj, cj) :: post).map (·.2)))).flatten as = some (s', m')) (p : Bytes) :
+    Inv s' m' ∧ (scan s' p).Sorted ∧
+    ∀ e, e ∈ scan s' p ↔ (Spec.get m' e.key = some e ∧ e.del = false ∧ Bytes.hasPrefix e.key p = true) := by
+  obtain ⟨hinv, hr, _⟩ := restored_instance_inv_partial own n pre post rj cj hok hdis
+  obtain ⟨h1, _⟩ := runBoth_inv (fun _ => trivial) as _ _ s' m' hc hinv hr hrun
+  exact ⟨h1, scan_spec h1 p⟩
+
+/-- **write_after_restore_wins_scan**: one write after the restore, observed through `ScanPrefix` (the operator's
+read path): the scan holds the key with exactly the new value (or not at all after a delete). This needs the restored
+sequence number to be above every loaded version (`seq_above_loaded`, i.e. the repair of D6): see
+`d6_scan_counterexample` for the same statement failing on the unrepaired restore. -/
+theorem write_after_restore_wins_scan_partial (own : Bytes → Bool) (n : Nat) (pre post : List (KGRange × Ckpt))
+    (rj : KGRange) (cj : Ckpt)
+    (hok : ∀ p ∈ pre ++ (rj, cj) :: post, SrcOk (n + 1) p)
+    (hdis : (pre ++ (rj, cj) :: post).Pairwise (fun a b => a.1.overlaps b.1 = false))
+    (k : Bytes) (d : Bool) (v : Bytes) (p : Bytes) (hp : Bytes.hasPrefix k p = true) :
+    let s := openDB own ((pre ++ (rj, cj) :: post).map (·.2))
+    ∀ e, (e ∈ scan (write s k d v) p ∧ e.key = k) ↔ (d = false ∧ e = ⟨k, s.seq + 1, false, v⟩) := by
+  intro s
+  obtain ⟨hinv, _, _⟩ := restored_instance_inv_partial own n pre post rj cj hok hdis
+  obtain ⟨c0, rest, hcs⟩ : ∃ c0 rest, (pre ++ (rj, cj) :: post).map (·.2) = c0 :: rest := by
+    cases pre with
+    | nil => exact ⟨cj, post.map (·.2), by simp⟩
+    | cons q ps' => exact ⟨q.2, (ps' ++ (rj, cj) :: post).map (·.2), by simp⟩
+  have hrep := openDB_inv own c0 rest
+  rw [← hcs] at hrep
+  obtain ⟨mm, hmm, _⟩ := hrep.mems
+  have hw : write s k d v = { s with seq := s.seq + 1, mems := [Run.insert mm (wEntry (s.seq + 1) k d v)] } :=
+    write_single s mm hmm hrep.reading k d v
+  have hinv' := inv_write hinv (wEntry (s.seq + 1) k d v) (wEntry_seq _ _ _ _) mm [] (by rw [hmm]; rfl)
+  have hst : ({ s with seq := s.seq + 1, mems := (Run.insert mm (wEntry (s.seq + 1) k d v) :: []).reverse } : State) =
+      write s k d v := by rw [hw]; rfl
+  rw [hst] at hinv'
+  obtain ⟨_, hmem⟩ := scan_spec hinv' p
+  intro e
+  have hget : Spec.get (wEntry (s.seq + 1) k d v :: (containers s).flatten) k = some (wEntry (s.seq + 1) k d v) := by
+    simp [Spec.get, Run.lookup, wEntry_key]
+  constructor
+  · rintro ⟨he, hk⟩
+    obtain ⟨hg, hd, _⟩ := (hmem e).mp he
+    rw [hk, hget] at hg
+    cases hg
+    cases d with
+    | true => simp [wEntry] at hd
+    | false => exact ⟨rfl, rfl⟩
+  · rintro ⟨rfl, rfl⟩
+    have : (⟨k, s.seq + 1, false, v⟩ : Entry) = wEntry (s.seq + 1) k false v := rfl
+    refine ⟨(hmem _).mpr ⟨?_, rfl, hp⟩, rfl⟩
+    rw [this] at *
+    exact hget
+
+/-- a table whose last key carries the smallest sequence number and belongs to another operator after scale-out -/
+def exC6 : Ckpt := ⟨[[⟨0, [⟨[0, 1, 97], 4, false, [7]⟩, ⟨[0, 200, 97], 1, false, [8]⟩]⟩]], []⟩
+
+/-- **scanR_eq_scan_restored**: on the restored instance, and after any number of writes/deletes to it, the scan exactly as
+`LevelList.AllTablesForPrefix` + `DB.ScanPrefix` perform it (binary search over `RangePrefixCompare`, forward walk while
+`RangeContainsPrefix`, merge by sequence number of the selected tables only) equals C07's `Lsm.scan`; so
+`rescale_restore_scan_partial` and `write_after_restore_wins_scan_partial` are statements about the code's scan. -/
+theorem scanR_eq_scan_restored_partial (own : Bytes → Bool) (n : Nat) (ps : List (KGRange × Ckpt)) (hne : ps ≠ [])
+    (hok : ∀ p ∈ ps, SrcOk (n + 1) p) (hdis : ps.Pairwise (fun a b => a.1.overlaps b.1 = false))
+    (ws : List (Bytes × Bool × Bytes)) (p : Bytes) :
+    let s := ws.foldl (fun s w => write s w.1 w.2.1 w.2.2) (openDB own (ps.map (·.2)))
+    scanR s p = scan s p := by
+  intro s
+  obtain ⟨c0, rest, hcs⟩ : ∃ c0 rest, ps.map (·.2) = c0 :: rest := by
+    cases ps with
+    | nil => exact absurd rfl hne
+    | cons q ps' => exact ⟨q.2, ps'.map (·.2), by simp⟩
+  have hrep := openDB_inv own c0 rest
+  rw [← hcs] at hrep
+  -- writes never touch the level list
+  have hlev : ∀ (ws : List (Bytes × Bool × Bytes)) (s0 : State),
+      (∃ mm, s0.mems = [mm]) → s0.reading = none →
+      (ws.foldl (fun s w => write s w.1 w.2.1 w.2.2) s0).levels = s0.levels := by
+    intro ws
+    induction ws with
+    | nil => intro s0 _ _; rfl
+    | cons w ws ih =>
+      intro s0 ⟨mm, hmm⟩ hr
+      simp only [List.foldl_cons]
+      rw [ih _ (by rw [write_single s0 mm hmm hr]; exact ⟨_, rfl⟩) (by rw [write_single s0 mm hmm hr]; exact hr),
+        write_single s0 mm hmm hr]
+  have hl : s.levels = mergeLevels (ps.map (·.2)) := by
+    obtain ⟨mm, hmm, _⟩ := hrep.mems
+    exact (hlev ws _ ⟨mm, hmm⟩ hrep.reading).trans hrep.levels
+  apply scanR_eq_scan
+  · intro t ht
+    rw [hl] at ht
+    obtain ⟨q, hq, htq⟩ := mem_mergeLevels n ps hok t ht
+    exact (hok q hq).sorted t htq
+  · intro l hlm
+    rw [hl] at hlm
+    obtain ⟨i, hi⟩ := List.getElem?_of_mem hlm
+    rw [List.getElem?_tail] at hi
+    exact mergeLevels_valid ps (fun q hq => (hok q hq).toOldOk.ck) hdis (i + 1) (by omega) l hi
+
+/-! ## Bridge to C08 / C07: where the old instances' documents come from -/
+
+/-- **ckptAnswer_is_state_at_checkpoint**: for every state `s₁` of a DKV instance satisfying C08's invariant (every
+reachable state does: `C08.inv_run`), the document a restoring instance reads from the record captured by
+`Checkpoint(id)` — its level list and the WAL records after `After` — answers, through `ckptAnswer`, exactly what
+the instance itself answered to `Get` at the `Checkpoint` call. So the right-hand sides of `rescale_restore_partial`
+and `rescale_restore_scan_partial` are the old operators' states at the checkpoint, not a definition. -/
+theorem ckptAnswer_is_state_at_checkpoint (s₁ : Ckpt.State) (hi : Ckpt.Inv s₁) (id : Nat) (k : Bytes) :
+    ckptAnswer (ofCapture (Ckpt.capture s₁ id)) k = answer (Lsm.get s₁.db k) :=
+  ckptAnswer_capture s₁ hi id k
+
+/-- **source_hypotheses_from_instance**: C07's invariant of the checkpointing instance discharges the `sorted` and
+`newer` hypotheses of `SrcOk`. What stays assumed of an old instance, explicitly: its keys lie in its own range
+(C05 routing; first generation — the exclusion of D37/D47), its tables are non-empty, its deeper levels are ascending
+(C18's layout validity) and it has `n` levels. The harness evaluates these on every first-generation document
+(`inFamily` in `Driver/C06.lean`). -/
+theorem source_hypotheses_from_instance (r : KGRange) (s : Lsm.State) (m : Spec) (hinv : Lsm.Inv s m)
+    (wal : List WalEntry) (n : Nat)
+    (hkeys : ∀ t ∈ s.levels.flatten, ∀ e ∈ t.run, 2 ≤ e.key.length ∧ r.includes (kgOf e.key) = true)
+    (hne : ∀ t ∈ s.levels.flatten, t.run ≠ [])
+    (hdeep : ∀ i l, 1 ≤ i → s.levels[i]? = some l → LevelValid l)
+    (hwal : ∀ w ∈ wal, r.includes (kgOf w.key) = true) (hn : s.levels.length = n) :
+    SrcOk n (r, ⟨s.levels, wal⟩) :=
+  srcOk_of_inv r s m hinv wal n hkeys hne hdeep hwal hn
+
+/-! ## Exclusivity: what the code guarantees -/
+
+/-- **operator_reads_exclusive**: every read the operator performs is a `ScanPrefix` whose prefix starts with the two
+key-group bytes of a group it owns (`encodeSubjectKey`, the timer queue's key-group prefix). Such a scan returns only
+keys of that owned group, whatever foreign entries the shared tables still hold. -/
+theorem operator_reads_exclusive (r : KGRange) (s : State) (m : Spec) (hinv : Inv s m) (p : Bytes)
+    (hp : 2 ≤ p.length) (hin : r.includes (kgOf p) = true) :
+    ∀ e ∈ scan s p, Keys.ownsKey r e.key = true ∧ kgOf e.key = kgOf p := by
+  intro e he
+  obtain ⟨_, _, hpre⟩ := ((scan_spec hinv p).2 e).mp he
+  obtain ⟨suffix, hs⟩ := Bytes.hasPrefix_iff.mp hpre
+  have hk : kgOf e.key = kgOf p := by
+    unfold kgOf; rw [hs, List.take_append_of_le_length hp]
+  exact ⟨by unfold Keys.ownsKey; rw [show Bytes.beNat (e.key.take 2) = kgOf e.key from rfl, hk]; exact hin, hk⟩
+
+theorem kgOf_u16be (g : Nat) (hg : g < 65536) (rest : Bytes) : kgOf (Bytes.u16be g ++ rest) = g := by
+  simp [kgOf, Bytes.u16be, Bytes.beNat]
+  omega
+
+/-- the keyed-state read of a subject key only sees keys of the subject's key group: the prefix `encodeSubjectKey k`
+starts with `k`'s key group, and the router sends `k` to the one operator whose range includes that group
+(`C05.rangeIndex_unique`, which supplies `hroute`). -/
+theorem keyed_state_read_exclusive (kgc : Nat) (hk : 0 < kgc) (hk2 : kgc ≤ 65535)
+    (k : Bytes) (r : KGRange) (hroute : r.includes (KeySpace.keyGroup kgc k) = true)
+    (s : State) (m : Spec) (hinv : Inv s m) :
+    ∀ e ∈ scan s (Keys.subjectKey kgc k), Keys.ownsKey r e.key = true := by
+  have hg : KeySpace.keyGroup kgc k < 65536 := by
+    have := Nat.mod_lt (Murmur.hash k 0).toNat hk; unfold KeySpace.keyGroup; omega
+  have hkg : kgOf (Keys.subjectKey kgc k) = KeySpace.keyGroup kgc k := by
+    unfold Keys.subjectKey
+    simp only [List.append_assoc]
+    exact kgOf_u16be _ hg _
+  intro e he
+  exact (operator_reads_exclusive r s m hinv _ (by simp [Keys.subjectKey, Bytes.u16be]) (by rw [hkg]; exact hroute) e he).1
+
+/-- what is NOT guaranteed (recorded, not a theorem of the property): the restored instance physically keeps the
+foreign entries of shared tables, a `DB.Get` of a foreign key answers with them, and they are written into its next
+checkpoint — the root of the open findings D37/D47. Only the WAL replay is filtered (`seq_above_loaded`). -/
+theorem foreign_table_entry_readable_by_get :
+    answer (getR (openDB (Keys.ownsKey ⟨0, 128⟩) [exC6]) [0, 200, 97]) = some [8] ∧
+    Keys.ownsKey ⟨0, 128⟩ [0, 200, 97] = false := by decide +kernel
 
 /-! non-vacuity: two old instances (ranges [0,128) and [128,256)), the second one listed first -/
 
@@ -166,6 +419,64 @@ theorem exC2_ok : OldOk 2 (⟨128, 256⟩, exC2) := by
   · intro w hw
     simp only [exC2, List.mem_cons, List.not_mem_nil, or_false] at hw
     subst hw; decide
+
+theorem exC1_src : SrcOk 2 (⟨0, 128⟩, exC1) := by
+  refine ⟨?_, ?_, ?_, exC1_ok.ck.deeper, ?_, exC1_ok.wal, rfl⟩
+  · intro t ht e he
+    simp only [exC1, List.flatten_cons, List.flatten_nil, List.cons_append, List.nil_append, List.mem_cons,
+      List.not_mem_nil, or_false] at ht
+    rcases ht with rfl | rfl <;> (simp only [List.mem_cons, List.not_mem_nil, or_false] at he; subst he; decide)
+  · intro t ht
+    simp only [exC1, List.flatten_cons, List.flatten_nil, List.cons_append, List.nil_append, List.mem_cons,
+      List.not_mem_nil, or_false] at ht
+    rcases ht with rfl | rfl <;> simp
+  · intro t ht
+    simp only [exC1, List.flatten_cons, List.flatten_nil, List.cons_append, List.nil_append, List.mem_cons,
+      List.not_mem_nil, or_false] at ht
+    rcases ht with rfl | rfl <;> simp [Run.Sorted]
+  · simp [exC1, readOrder, NewerAbove]
+
+theorem exC2_src : SrcOk 2 (⟨128, 256⟩, exC2) := by
+  refine ⟨?_, ?_, ?_, exC2_ok.ck.deeper, ?_, exC2_ok.wal, rfl⟩
+  · intro t ht e he
+    simp only [exC2, List.flatten_cons, List.flatten_nil, List.cons_append, List.nil_append, List.mem_cons,
+      List.not_mem_nil, or_false] at ht
+    subst ht; simp only [List.mem_cons, List.not_mem_nil, or_false] at he; subst he; decide
+  · intro t ht
+    simp only [exC2, List.flatten_cons, List.flatten_nil, List.cons_append, List.nil_append, List.mem_cons,
+      List.not_mem_nil, or_false] at ht
+    subst ht; simp
+  · intro t ht
+    simp only [exC2, List.flatten_cons, List.flatten_nil, List.cons_append, List.nil_append, List.mem_cons,
+      List.not_mem_nil, or_false] at ht
+    subst ht; simp [Run.Sorted]
+  · simp [exC2, readOrder, NewerAbove]
+
+/-- the hypotheses of the scan-level theorems are satisfiable (two handles in descending key order), and they then
+give: the scan of key group 1 on the merged instance holds the level-0, the deeper-level and the WAL value -/
+example :
+    let s := openDB (Keys.ownsKey ⟨0, 256⟩) [exC2, exC1]
+    (∃ e ∈ scan s [0, 1], e.key = [0, 1, 97] ∧ e.val = [1]) ∧ (∃ e ∈ scan s [0, 1], e.key = [0, 1, 98] ∧ e.val = [2]) ∧
+    (∃ e ∈ scan s [0, 1], e.key = [0, 1, 99] ∧ e.val = [3]) ∧ ¬ (∃ e ∈ scan s [0, 1], e.key = [0, 1, 100] ∧ e.val = []) := by
+  have hok : ∀ p ∈ [((⟨128, 256⟩ : KGRange), exC2)] ++ ((⟨0, 128⟩ : KGRange), exC1) :: [], SrcOk (1 + 1) p := by
+    intro p hp
+    simp only [List.cons_append, List.nil_append, List.mem_cons, List.not_mem_nil, or_false] at hp
+    rcases hp with rfl | rfl
+    · exact exC2_src
+    · exact exC1_src
+  have hd : ([((⟨128, 256⟩ : KGRange), exC2)] ++ ((⟨0, 128⟩ : KGRange), exC1) :: []).Pairwise
+      (fun (a b : KGRange × Ckpt) => a.1.overlaps b.1 = false) := by
+    simp only [List.cons_append, List.nil_append, List.pairwise_cons, List.mem_cons, List.not_mem_nil, or_false,
+      forall_eq, List.Pairwise.nil, and_true, false_implies, implies_true]
+    decide
+  have h := (rescale_restore_scan_partial (Keys.ownsKey ⟨0, 256⟩) 1 [(⟨128, 256⟩, exC2)] [] ⟨0, 128⟩ exC1 hok hd [0, 1]).2
+  intro s
+  refine ⟨(h [0, 1, 97] [1] (by decide) (by decide) (by decide)).mpr (by decide),
+    (h [0, 1, 98] [2] (by decide) (by decide) (by decide)).mpr (by decide),
+    (h [0, 1, 99] [3] (by decide) (by decide) (by decide)).mpr (by decide), ?_⟩
+  intro hex
+  have := (h [0, 1, 100] [] (by decide) (by decide) (by decide)).mp hex
+  revert this; decide
 
 /-- the hypotheses of `rescale_restore_partial` are satisfiable with two handles listed in descending key order, and
 the theorem then gives the restored values (one from a level-0 table, one from a deeper level, one from the WAL) -/
@@ -222,7 +533,12 @@ theorem d8_counterexample :
 
 /-- regression witness D6: the table's last key carries the smallest sequence number; after a filtered replay the
 unrepaired restore numbered a new write below the restored version -/
-def exC6 : Ckpt := ⟨[[⟨0, [⟨[0, 1, 97], 4, false, [7]⟩, ⟨[0, 200, 97], 1, false, [8]⟩]⟩]], []⟩
+
+theorem d6_scan_counterexample :
+    ((scan (write (openDBOld (Keys.ownsKey ⟨0, 128⟩) [exC6]) [0, 1, 97] false [42]) [0, 1]).map (·.val)) = [[7]] ∧
+    ((scan (write (openDB (Keys.ownsKey ⟨0, 128⟩) [exC6]) [0, 1, 97] false [42]) [0, 1]).map (·.val)) = [[42]] ∧
+    ((scanR (write (openDBOld (Keys.ownsKey ⟨0, 128⟩) [exC6]) [0, 1, 97] false [42]) [0, 1]).map (·.val)) = [[7]] := by
+  decide +kernel
 
 theorem d6_counterexample :
     (write (openDBOld (Keys.ownsKey ⟨0, 128⟩) [exC6]) [0, 1, 97] false [42]).seq = 2 ∧
